@@ -34,6 +34,12 @@ typedef struct {
 } lzma_coder;
 
 
+#ifdef TUKAANI_PROJECT_XZ_VERIF
+/// Test builds only, zero by default: see lz_encoder_init().
+uint32_t lzma_verif_mf_normalize_after = 0;
+#endif
+
+
 /// \brief      Moves the data in the input window to free space for new data
 ///
 /// mf->buffer is a sliding input window, which keeps mf->keep_size_before
@@ -393,6 +399,17 @@ lz_encoder_init(lzma_mf *mf, const lzma_allocator *allocator,
 	// that match finder needs to be normalized more often, which may
 	// hurt performance with huge dictionaries.
 	mf->offset = mf->cyclic_size;
+
+#ifdef TUKAANI_PROJECT_XZ_VERIF
+	// Test builds only: start the match finder positions close to the
+	// point where normalize() has to be called so that it happens after
+	// lzma_verif_mf_normalize_after bytes instead of about 4 GiB of input.
+	if (lzma_verif_mf_normalize_after != 0
+			&& UINT32_MAX - lzma_verif_mf_normalize_after
+				> mf->cyclic_size)
+		mf->offset = UINT32_MAX - lzma_verif_mf_normalize_after;
+#endif
+
 	mf->read_pos = 0;
 	mf->read_ahead = 0;
 	mf->read_limit = 0;
